@@ -189,6 +189,73 @@ func (s *scopeCap) Referrers(ctx context.Context, repo string, d ociregistry.Dig
 	return s.Interface.Referrers(ctx, repo, d, artifactType)
 }
 
+// reiter sits on top of the wrapper under test: every listing sequence the wrapper returns is
+// consumed three times (the first time by world.step, whose consumer sees it as usual), and
+// what the further consumptions delivered is noted for the event.
+type reiter struct {
+	ociregistry.Interface
+	cat   *Catalog
+	again []ev
+}
+
+const extraPasses = 2
+
+func reiterSeq[T any](r *reiter, seq ociregistry.Seq[T], name func(T) string) ociregistry.Seq[T] {
+	return func(yield func(T, error) bool) {
+		seq(yield)
+		for i := 0; i < extraPasses; i++ {
+			items := []string{}
+			ok := true
+			seq(func(x T, err error) bool {
+				if err != nil {
+					ok = false
+					return true
+				}
+				items = append(items, name(x))
+				return true
+			})
+			r.again = append(r.again, ev{"ok": ok, "items": items})
+		}
+	}
+}
+
+func (r *reiter) take() []ev {
+	out := r.again
+	if out == nil {
+		out = []ev{}
+	}
+	r.again = nil
+	return out
+}
+
+func (r *reiter) Repositories(ctx context.Context, startAfter string) ociregistry.Seq[string] {
+	return reiterSeq(r, r.Interface.Repositories(ctx, startAfter), func(s string) string { return s })
+}
+func (r *reiter) Tags(ctx context.Context, repo string, startAfter string) ociregistry.Seq[string] {
+	return reiterSeq(r, r.Interface.Tags(ctx, repo, startAfter), func(s string) string { return s })
+}
+func (r *reiter) Referrers(ctx context.Context, repo string, d ociregistry.Digest, artifactType string) ociregistry.Seq[ociregistry.Descriptor] {
+	return reiterSeq(r, r.Interface.Referrers(ctx, repo, d, artifactType), func(x ociregistry.Descriptor) string { return r.cat.cidOfDigest(x.Digest) })
+}
+
+// Upload session names starting with "e" stand for the EMPTY upload id, names starting with
+// "o" for odd ones; such a session is resumed without ever having been started.
+var oddIDs = []string{"../x", " ", "0", "a/b", "%2e%2e", "fresh-u1?x=1"}
+
+func oddID(u string) (string, bool) {
+	if strings.HasPrefix(u, "e") {
+		return "", true
+	}
+	if strings.HasPrefix(u, "o") {
+		n := 0
+		for _, ch := range u[1:] {
+			n = n*7 + int(ch)
+		}
+		return oddIDs[n%len(oddIDs)], true
+	}
+	return "", false
+}
+
 // takeAll returns every backend call logged since the last time, in order.
 func takeAll(r *recorder) []ev {
 	r.mu.Lock()
@@ -207,7 +274,8 @@ func takeAll(r *recorder) []ev {
 type fRun struct {
 	cat     *Catalog // contents, tags, uploads; Repos = the names callers use (view names for sub)
 	back    *Catalog // same contents; Repos = all backend repositories
-	prefix  string
+	prefix  string   // the composed prefix
+	chain   []string // the prefixes of the stacked Sub views, innermost first
 	names   map[string]bool
 	buf     bytes.Buffer
 	n       int
@@ -285,11 +353,16 @@ func (fr *fRun) runCase(c fCase, gen ev) {
 			return allow[name]
 		})
 	case "sub":
-		top = ocifilter.Sub(sc, fr.prefix)
+		top = sc
+		for _, p := range fr.chain {
+			top = ocifilter.Sub(top, p)
+		}
 	default:
 		panic("unknown kind " + c.Kind)
 	}
 	var wbuf, bbuf bytes.Buffer
+	ri := &reiter{Interface: top, cat: fr.cat}
+	top = ri
 	ww := &world{cat: fr.cat, top: top, writers: map[string]BlobWriterT{}, ids: map[string]string{}, out: json.NewEncoder(&wbuf)}
 	wb := &world{cat: fr.back, top: mem, writers: map[string]BlobWriterT{}, ids: map[string]string{}, out: json.NewEncoder(&bbuf)}
 	wb.snapAll = []ociregistry.Interface{mem}
@@ -306,7 +379,11 @@ func (fr *fRun) runCase(c fCase, gen ev) {
 	var cm ev
 	json.Unmarshal(cj, &cm)
 	stripNulls(cm)
-	fr.write(ev{"op": "reset", "kind": c.Kind, "imm": c.Imm, "pol": pol, "allow": allow, "case": cm})
+	chain := fr.chain
+	if chain == nil {
+		chain = []string{}
+	}
+	fr.write(ev{"op": "reset", "kind": c.Kind, "imm": c.Imm, "pol": pol, "allow": allow, "chain": chain, "case": cm})
 	fr.perKind[c.Kind]++
 
 	// what the backend holds beforehand: written directly, not through the wrapper
@@ -336,6 +413,10 @@ func (fr *fRun) runCase(c fCase, gen ev) {
 		cons = cons[:0]
 		takeAll(rec)
 		sc.take()
+		ri.take()
+		if id, ok := oddID(op.U); ok && op.Op == "Resume" {
+			ww.ids[op.R+"|"+op.U] = id
+		}
 		ww.step(cctx, op)
 		for _, e := range drain(&wbuf) {
 			e["via"] = "wrapper"
@@ -350,6 +431,7 @@ func (fr *fRun) runCase(c fCase, gen ev) {
 			}
 			e["backend"] = calls
 			e["bscopes"] = sc.take()
+			e["again"] = ri.take()
 			e["scope"] = projScope(ociauth.ScopeFromContext(cctx))
 			for _, t := range s.Triples {
 				fr.name(t[1])
@@ -666,6 +748,14 @@ func filterCmd(args []string) error {
 		gen = ev{"seed": hdr.Gen.Seed, "cat": hdr.Gen.Cat, "prefix": hdr.Gen.Prefix, "repos": hdr.Gen.Repos}
 		*n = 0
 	}
+	// -prefix a,b: Sub(Sub(backend, "a"), "b"), one view under a/b
+	var chain []string
+	prefixSpec := *prefix
+	if *prefix != "" {
+		chain = strings.Split(*prefix, ",")
+		*prefix = strings.Join(chain, "/")
+	}
+	gen["prefix"] = prefixSpec
 	rnd := rand.New(rand.NewSource(*seed))
 	var cat *Catalog
 	backend := map[string]bool{}
@@ -778,7 +868,27 @@ func filterCmd(args []string) error {
 					c.Scopes = append(c.Scopes, randScope(rnd, names, *prefix, outside))
 				}
 			}
-			c.Ops = ops
+			// resumes with the empty id and with odd ids, each session name used once
+			var withOdd []Op
+			nOdd := 0
+			for _, op := range ops {
+				withOdd = append(withOdd, op)
+				if rnd.Intn(10) == 0 {
+					nOdd++
+					u := fmt.Sprintf("%s%d", []string{"e", "e", "o"}[rnd.Intn(3)], nOdd)
+					r := cat.Repos[rnd.Intn(len(cat.Repos))]
+					withOdd = append(withOdd, Op{Op: "Resume", R: r, U: u, Off: []int{-1, 0, 0, 3}[rnd.Intn(4)]})
+					if rnd.Intn(2) == 0 {
+						withOdd = append(withOdd, Op{Op: "Write", R: r, U: u, Data: []int{7, 0}}, Op{Op: "Commit", R: r, U: u, DD: "b2"})
+					}
+				}
+			}
+			if len(c.Scopes) > 0 {
+				for len(c.Scopes) < len(withOdd) {
+					c.Scopes = append(c.Scopes, c.Scopes[rnd.Intn(len(c.Scopes))])
+				}
+			}
+			c.Ops = withOdd
 			cases = append(cases, c)
 		}
 	}
@@ -804,7 +914,7 @@ func filterCmd(args []string) error {
 	}
 	for _, c := range cases {
 		for _, op := range c.Ops {
-			if strings.HasPrefix(op.U, "h") {
+			if op.U != "" {
 				known := false
 				for _, u := range cat.Uploads {
 					known = known || u == op.U
@@ -818,7 +928,7 @@ func filterCmd(args []string) error {
 	back := *cat
 	back.Repos = sortedKeys(backend)
 
-	fr := &fRun{cat: cat, back: &back, prefix: *prefix, names: map[string]bool{"": true, "*": true, *prefix: true}, perKind: map[string]int{}}
+	fr := &fRun{cat: cat, back: &back, prefix: *prefix, chain: chain, names: map[string]bool{"": true, "*": true, *prefix: true}, perKind: map[string]int{}}
 	for _, r := range back.Repos {
 		fr.name(r)
 	}
